@@ -92,7 +92,7 @@ pub fn expr_src(x: &X, dm: DM) -> String {
 pub struct Structural {
     /// per compound state with Initial::Attr: render as <initial> element instead (and vice versa for empty Elem)
     pub flip_initial: Vec<bool>,
-    /// per descriptor occurrence: 0 = as written, 1 = add '.', 2 = add '.*'
+    /// per descriptor occurrence: 0 = as written, 1 = add '.', 2 = add '.*', 3 = '..', 4 = '.*.', 5 = '..*'
     pub descriptor_spelling: Vec<u8>,
 }
 
@@ -240,6 +240,9 @@ impl<'a> Build<'a> {
         match k {
             1 => format!("{}.", d),
             2 => format!("{}.*", d),
+            3 => format!("{}..", d),
+            4 => format!("{}.*.", d),
+            5 => format!("{}..*", d),
             _ => d.to_string(),
         }
     }
